@@ -234,4 +234,45 @@ theorem go_params_own_shift_code (p : Parent) (c r : Nat) (hc : c < 4) :
     childReg selOfCode p c r = placed p c r :=
   go_params_own_shift selOfCode go_copy_shifts_match.1 p c r hc
 
+/-! ## Receives from closed channels -/
+
+/-- a well-formed receive result: a closed channel (`ok = false`) gives the zero value -/
+def RecvWF (recv : Int × Bool) : Prop := recv.2 = false → recv.1 = 0
+
+/-- storing the received value whatever `ok` is gives Go's result, for every previous content of
+the register -/
+theorem recv_store_unguarded_is_go (old : Int) (recv : Int × Bool) (h : RecvWF recv) :
+    recvStore false old recv = goRecv recv := by
+  unfold recvStore goRecv
+  cases hr : recv.2 with
+  | true => simp
+  | false => simp [h hr]
+
+/-- a store guarded by `ok` keeps a stale value after the channel is closed (the register of a
+select is shared by all its receive cases of one class, so the stale value may even come from
+another channel) -/
+theorem recv_store_guarded_by_ok_keeps_stale :
+    ∃ old recv, RecvWF recv ∧ recvStore true old recv ≠ goRecv recv :=
+  ⟨7, (0, false), by simp [RecvWF], by decide⟩
+
+example : RecvWF (0, false) ∧ RecvWF (5, true) := by simp [RecvWF]
+
+/-- the stores of a received value in `run` as read by hand: every `setFromReflectValue` of a
+received value is under no condition but "the instruction has a value register" (`c != 0`,
+`r != 0`, `b != 0`) and, in OpSelect, "the chosen case is a receive" — in particular not under `ok`
+(in OpRange's channel loop the store follows `if !ok { break }`: a range never delivers the zero
+value of a closed channel) -/
+def knownRecvStores : List (String × String × String) := [
+  ("OpReceive", "if done == nil then", "v, vm.ok = ch.Recv()"),
+  ("OpReceive", "if done == nil else", "chosen, v, vm.ok = reflect.Select(vm.cases)"),
+  ("OpReceive", "if c != 0 then", "vm.setFromReflectValue(c, v)"),
+  ("OpReceive", "if b != 0 then", "vm.setBool(b, vm.ok)"),
+  ("OpSelect", "if step > 0 then; if vm.cases[chosen].Dir == reflect.SelectRecv then; if r != 0 then", "vm.setFromReflectValue(r, recv)"),
+  ("OpSelect", "if step > 0 then; if vm.cases[chosen].Dir == reflect.SelectRecv then", "vm.ok = recvOK"),
+  ("OpRange", "if b != 0 then", "vm.setFromReflectValue(b, u)")]
+
+/-- **generated fact** `received_value_stored_whatever_ok`: the code is the unguarded store of
+`recv_store_unguarded_is_go` -/
+theorem received_value_stored_whatever_ok : recvStores = knownRecvStores := by decide
+
 end ScriggoV.GoCopy
